@@ -1,5 +1,6 @@
 import TsVerif.C10.Judge
 import TsVerif.C10.Move
+import TsVerif.C10.Marks
 /-!
 # C10 — Editing a tree keeps every untouched node in sync with the new text
 
@@ -27,8 +28,10 @@ Boundary conventions fixed here (read off the C code): the change is the half-op
 [start, old_end), a pure insertion being the point `start`; a node whose content ends exactly at
 `start` keeps its range unless the edit is a pure insertion there (then it may grow); a node
 whose content starts at or after `old_end` is shifted (also for a pure insertion exactly at its
-start).  OPEN (judged on every real edited tree, not yet proved for the model): the row/column
-dimension of kept/shifted, and the tree-level statement "touched ⇒ has_changes incl. ancestors".
+start).  * touched (incl. via look-ahead) ⇒ has_changes, for every node incl. ancestors ........ `edit_marks`
+
+OPEN (judged on every real edited tree, not yet proved for the model): the row/column
+dimension of kept/shifted.
 -/
 namespace TsVerif.C10
 open TsGen TsVerif
@@ -234,6 +237,39 @@ mutual
     | t :: ts, h => by
       simp only [wfbCheckL, Bool.and_eq_true] at h
       exact WFbL.cons t ts (wfbCheck_sound t h.1) (wfbCheckL_sound ts h.2)
+end
+
+
+/-- **touched ⇒ has_changes** — for every tree that tiles in bytes (`WFb`) and whose look-ahead
+ends are monotone (`LaOK`), and every edit with start ≤ old_end: pairing nodes before/after in
+preorder, every non-empty node (frame start < look-ahead end) whose extended span
+`[content start, content end + lookahead_bytes)` meets the change (`a < old_end ∧ start < c`) has
+`has_changes = true` in the edited tree.  Since a touched node's ancestors are touched too
+(`ext_bounds`: an ancestor starts no later and its look-ahead ends no earlier), this is also the
+"as do all its ancestors" clause. -/
+theorem edit_marks (t : Tree) (e : Edit) (hw : WFb t) (hl : LaOK t) (he : e.start.bytes ≤ e.old_end.bytes) :
+    All2 (Mark e.start.bytes e.old_end.bytes) (ext t 0) (flags (editTree t e)) :=
+  editTree_marks t e e.start.bytes e.old_end.bytes 0 he hw hl ⟨by simp, Or.inl (by simp)⟩
+
+/-- The excluded corner is necessary: a completely empty subtree (no padding, size or look-ahead)
+strictly inside the deleted text is *not* marked by `ts_subtree_edit`'s algorithm. -/
+example :
+    let t : Tree := .mk (nd 0 4 0) [.mk (nd 0 2 0) [], .mk (nd 0 2 0) [.mk (nd 0 0 0) [], .mk (nd 0 2 0) []]]
+    let e : Edit := { start := ⟨1, ⟨0, 1⟩⟩, old_end := ⟨3, ⟨0, 3⟩⟩, new_end := ⟨1, ⟨0, 1⟩⟩ }
+    ext t 0 = [(0, 0, 4), (0, 0, 2), (2, 2, 4), (2, 2, 2), (2, 2, 4)] ∧
+    flags (editTree t e) = [true, true, true, false, true] := by decide
+
+mutual
+  theorem laokCheck_sound : ∀ t : Tree, laokCheck t = true → LaOK t
+    | .mk d ks, h => by
+      simp only [laokCheck] at h
+      exact LaOK.mk d ks (laokCheckL_sound ks 0 _ h)
+  theorem laokCheckL_sound : ∀ (ks : List Tree) (l B : Nat), laokCheckL ks l B = true → LaOKL ks l B
+    | [], l, B, _ => LaOKL.nil l B
+    | c :: rest, l, B, h => by
+      simp only [laokCheckL, Bool.and_eq_true, decide_eq_true_eq] at h
+      obtain ⟨⟨h1, h2⟩, h3⟩ := h
+      exact LaOKL.cons c rest l B (laokCheck_sound c h1) h2 (laokCheckL_sound rest _ B h3)
 end
 
 end TsVerif.C10
